@@ -11,7 +11,8 @@ RULE = (
     '(exact rational arithmetic, strict undefinedness) on a grid of valuations (numbers -1,0,1,2,1/2; booleans; two '
     'strings; arrays of length 0-2 incl. empty); they must agree wherever the original is defined. Also: same type, '
     'predicate->predicate with vacuous truth/contradiction exactly when the condition folds to True/False; simplify '
-    'may raise only for an identically-zero divisor or an undefined constant sub-term. Non-trivial: simplify changed '
+    'may raise only for an identically-zero divisor or an undefined constant sub-term. A secondary family builds multi-argument '
+    'calls (max, min, gcd, log, atan2) through the API, which text cannot express. Non-trivial: simplify changed '
     'the tree and at least one valuation was defined; distinct by text.'
 )
 ASSUMPTIONS = [
@@ -162,7 +163,77 @@ def sub_simplify(inp):
     return check_case(inp, limit=256)
 
 
-SUBS = {'simplify': sub_simplify}
+def build_api_call(inp):
+    """A multi-argument built-in call (not reachable from text): HplFunctionCall(name, parsed arguments)."""
+    from hpl.ast import HplBinaryOperator, HplFunctionCall, HplLiteral
+
+    args = []
+    for t in inp['args']:
+        k, a = lib.outcome('expression', t)
+        if k != 'ast':
+            return None
+        args.append(a)
+    st, call = core.guarded(HplFunctionCall, inp['fn'], tuple(args))
+    if st == 'exc':
+        return None
+    if inp.get('wrap'):
+        st, call = core.guarded(HplBinaryOperator, inp['wrap'], call, HplLiteral.number(1))
+        if st == 'exc':
+            return None
+    return call
+
+
+def sub_api_call(inp, limit=128):
+    """inp: {'fn', 'args': [expression texts], 'wrap': None|'>'|'=' , 'this', 'aliases'}"""
+    a = build_api_call(inp)
+    if a is None:
+        return 'rejected'
+    model = astx.to_model(a)
+    if not ev.closed_ok(model):
+        return 'size-bound'
+    envs = [ev.Env(t, v) for t, v in values.valuations(model, inp.get('this'), inp.get('aliases') or {}, limit)]
+    st, r = core.guarded(_simplify(), a)
+    if st == 'exc':
+        if not isinstance(r, RecursionError) and _contains_zero_divisor_or_undefined_constant(model, envs):
+            return 'raised-allowed'
+        raise Violation('api_call', f'raises:{core.exc_sig(r)}', inp, f'simplify({a}) raised {type(r).__name__}: {str(r)[:300]}')
+    if not getattr(r, 'is_expression', False) or r.data_type != a.data_type:
+        raise Violation('api_call', 'kind-or-type', inp, f'simplify({a}) returned {r!r}'[:300])
+    rmodel = astx.to_model(r)
+    defined = 0
+    for e in envs:
+        s0, v0 = ev.try_ev(model, e)
+        if s0 != 'ok':
+            continue
+        s1, v1 = ev.try_ev(rmodel, e)
+        if s1 in ('ambig', 'illcond'):
+            continue
+        defined += 1
+        if s1 == 'undef' or not ev.same_value(v0, v1):
+            raise Violation('api_call', f'value:{inp["fn"]}', inp, f'simplify changes the value of {a}: {v0!r} -> {v1 if s1 == "ok" else "undefined"}\nsimplified: {r}\nvaluation: this={e.this} vars={e.vars}')
+    return ('changed' if rmodel != model else 'unchanged') if defined else 'never-defined'
+
+
+SUBS = {'simplify': sub_simplify, 'api_call': sub_api_call}
+
+
+def gen_api_call(ch):
+    schema = gen.schemas(ch, depth=1)
+    aliases = {'A': gen.schemas(ch, depth=1, small=True)} if ch.bool() else {}
+    env = gen.Env(schema, aliases, reserved=set(aliases))
+    fn = ch.pick(['max', 'max', 'min', 'min', 'gcd', 'log', 'atan2'])
+    n = 2 if fn in ('log', 'atan2') else ch.int(2, 5)
+    args = []
+    for _ in range(n):
+        k = ch.int(0, 3)
+        if k == 0:
+            m = gen._lit(ch, 'N')
+        elif k == 1:
+            m = gen.ref_term(ch, env, 'N', 0) or gen._lit(ch, 'N')
+        else:
+            m = gen.typed_term(ch, env, 'N', ch.int(0, 2))
+        args.append(mast.render(m))
+    return {'fn': fn, 'args': args, 'wrap': ch.pick([None, '>', '=', '<']), 'this': schema, 'aliases': aliases}
 
 
 def random_cases(ch):
@@ -186,6 +257,13 @@ def shard(ctx, shard_no, nshards, n_random, small_stride):
 
     with ctx.timed('random'):
         core.run_hypothesis(ctx, 'random', from_tape(random_cases), body, n_random)
+
+    def body_api(inp):
+        r = sub_api_call(inp, limit)
+        ctx.case(('api', inp['fn'], tuple(inp['args']), inp['wrap']), r == 'changed', 'api-call:' + inp['fn'] + ':' + r, sample=inp if r == 'changed' else None)
+
+    with ctx.timed('api-calls'):
+        core.run_hypothesis(ctx, 'api', from_tape(gen_api_call), body_api, max(200, n_random // 3))
     # small-scope family: deterministic slice (stride), split over shards
     fams = small.families()
     tot = small.total(fams)
